@@ -585,6 +585,8 @@ def check_C16(chk):
         chk.add_replay(out, "replay GenCtor on dbg-native")
     chk.cov["exhaustive"] = True
     stage_trace(chk, bins, "builder", "TraceBuilder", invariants=("Inv",), seeds=2 if chk.thorough else 1)
+    # what the run-length builder builds at scale: many blocks, nearly full blocks followed by long values, by rotating decompositions
+    stage_trace(chk, bins, "rl", "TraceBV", invariants=("ObjWellFormed",))
     return chk.finish(rule="cases = builder call histories with valid and invalid calls; every (reachable builder state, call) pair once, reached by a "
                            "shortest history, followed by a completion and the conversion; result, every observable after every call and the "
                            "converted vector's content are compared; distinct = distinct history prefixes")
